@@ -613,3 +613,46 @@ pub fn check_mixed(
         .n("replayed_final", acc)
         .done()
 }
+
+
+// ---------------------------------------------------------------- fault injection: the OS refuses new threads
+#[repr(C)]
+#[derive(Clone, Copy)]
+struct RLimit { cur: u64, max: u64 }
+extern "C" {
+    fn getrlimit(resource: i32, rlim: *mut RLimit) -> i32;
+    fn setrlimit(resource: i32, rlim: *const RLimit) -> i32;
+}
+const RLIMIT_AS: i32 = 9;
+
+fn vm_size_bytes() -> Option<u64> {
+    let status = std::fs::read_to_string("/proc/self/status").ok()?;
+    let line = status.lines().find(|l| l.starts_with("VmSize:"))?;
+    let kb: u64 = line.split_whitespace().nth(1)?.parse().ok()?;
+    Some(kb * 1024)
+}
+
+/// Runs `f` at a moment when thread creation fails (address-space limit lowered to the current size plus 1 MiB, cached thread
+/// stacks used up by parked threads).  Returns None when the fault could not be injected.  Linux only.
+pub fn with_no_threads<R>(f: impl FnOnce() -> R) -> Option<R> {
+    let mut parked = Vec::with_capacity(64);
+    let (release, gate) = std::sync::mpsc::channel::<()>();
+    let gate = Arc::new(Mutex::new(gate));
+    let mut old = RLimit { cur: 0, max: 0 };
+    if unsafe { getrlimit(RLIMIT_AS, &mut old) } != 0 { return None; }
+    let tight = RLimit { cur: vm_size_bytes()? + (1 << 20), max: old.max };
+    if unsafe { setrlimit(RLIMIT_AS, &tight) } != 0 { return None; }
+    let mut refused = false;
+    for _ in 0..64 {
+        let gate = gate.clone();
+        match std::thread::Builder::new().spawn(move || { let _ = gate.lock().unwrap().recv(); }) {
+            Ok(h) => parked.push(h),
+            Err(_) => { refused = true; break; }
+        }
+    }
+    let out = if refused { Some(f()) } else { None };
+    unsafe { setrlimit(RLIMIT_AS, &old); }
+    drop(release);
+    for h in parked { let _ = h.join(); }
+    out
+}
